@@ -31,7 +31,8 @@ RULE = (
     "comparison result with y, y & mask, y << k, y >> k, both operand orders) judged the same way; multi-path programs `if (x == c) return; assert(x OP y != k)` (EQ / ISZERO, both jump polarities, x and y re-read "
     "from calldata) whose valid models are executed on the reference EVM (Lean Driver/Evm) as a concrete run of the whole program; CODECOPY/EXTCODECOPY across the end of "
     "concrete code over input-dirtied memory followed by an assertion on the zero-filled part, judged by the same concrete replay; caller+helper (returning 0/1/4/31/32 bytes, CALL and STATICCALL) and the identity precompile with "
-    "short input, output window over a pre-set word (constant or input) and a failure when x equals the word afterwards, same replay; the real solve_end_to_end + callback flow with --dump-smt-directory for same-named functions / restarting path ids / a rerun "
+    "short input, output window over a pre-set word (constant or input) and a failure when x equals the word afterwards, same replay; a helper that forks on symbolic data into 2-3 paths "
+    "that all revert, followed in the caller by `if (flag) fail(); flag = 1` over storage / transient storage, same replay; the real solve_end_to_end + callback flow with --dump-smt-directory for same-named functions / restarting path ids / a rerun "
     "into the same directory (every valid model replayed on THIS path's conditions), plus synthetic "
     "outputs (layout/whitespace variants, piped names, short names, duplicates, junk, first-line variants) through the real "
     "from_result / parse_model_str / is_model_valid / _solve_end_to_end_callback vs the Lean model; a case is distinct by its text."
@@ -734,6 +735,61 @@ def correspond(ctx):
                 inp = evmdiff.Inputs(args=[vals.get("p_x", 0), vals.get("p_y", 0)], caller=0xCA11E4, origin=0x0419, value=0, balances={}, baldefault=0)
                 replay_jobs.append((scn, inp, f"{desc}: valid counterexample x={hex(vals.get('p_x', 0))}, y={hex(vals.get('p_y', 0))}"))
             K.close_function_ctx(gf)
+
+    # failed external calls: the callee forks on symbolic data into several paths that ALL revert; after the failure the caller reads a flag
+    # (storage / transient storage), fails if it is set, else sets it.  Each resumed caller path must see the pre-call state of ITS OWN run.
+    fc_cases = [("SLOAD", "SSTORE", 2), ("SLOAD", "SSTORE", 3), ("TLOAD", "TSTORE", 2), ("SLOAD", "SSTORE", 2)]
+    for fi_, (ld, st_, nfork) in enumerate(fc_cases):
+        thr = [rng.randrange(3, 50) for _ in range(nfork - 1)]
+        callee_items = []
+        for k, tv in enumerate(thr):
+            callee_items += [("push", tv), ("push", 0), "CALLDATALOAD", "LT", ("push", f"R{k}"), "JUMPI"]
+        callee_items += [("push", 0), ("push", 0), "REVERT"]
+        for k in range(len(thr)):
+            callee_items += [("label", f"R{k}"), ("push", 0), ("push", k + 1), "REVERT"]
+        callee = K.asm(callee_items)
+        slot = rng.choice([0, 1, 7])
+        pre_write = [("push", 0), ("push", slot), st_] if fi_ == 3 else []          # variant: the flag is explicitly cleared before the call
+        items = (pre_write + lx + [("push", 0), "MSTORE", ("push", 0), ("push", 0), ("push", 32), ("push", 0), ("push", 0), ("push", HELPER), "GAS", "CALL",
+                                  ("push", "DONE"), "JUMPI", ("push", slot), ld, ("push", "FAIL"), "JUMPI", ("push", 1), ("push", slot), st_, "STOP",
+                                  ("label", "DONE"), "STOP", ("label", "FAIL"), ("push", 0), ("push", 0), "REVERT"])
+        code = K.asm(items)
+        desc = f"call(helper forking into {nfork} reverting paths on x); catch {{ if ({ld.lower()}({slot}) != 0) fail(); {st_.lower()}({slot}, 1) }}"
+        sevm_, sargs = sevmdrv.mk_sevm()
+        cd = HByteVec()
+        for v in eng2.vars:
+            cd.append(HBV(v))
+        try:
+            ex0 = sevmdrv.mk_ex(sevm_, sargs, code, calldata=cd, this=con_addr(evmdiff.MAIN), extra_code={con_addr(HELPER): callee})
+            exs = list(sevm_.run(ex0))
+        except Exception as e:
+            ctx.count(f"engine-error:failed-call:{type(e).__name__}")
+            continue
+        failing = [ex for ex in exs if ex.context.output.error is not None and type(ex.context.output.error).__name__ == "Revert"]
+        ctx.case(f"failedcall|{desc}|{thr}", nontrivial=True)
+        ctx.count(f"failedcall:{ld}:forks={nfork}:paths={len(exs)}:failing={len(failing)}")
+        gargs = eng.args(solver_command=z3bin if fi_ % 2 else f"{yices} --smt2-model-format --bvconst-in-decimal", solver_timeout_assertion=6.0)
+        for fx in failing:
+            gf = K.mk_function_ctx(gargs, "test", "FC")
+            gpc = K.path_ctx(gargs, fi_, gf.solving_ctx, fx.path.to_smt2(gargs))
+            gout = solve_end_to_end(gpc)
+            gf.call_sequences[fi_] = ""
+            gh = CounterexampleHandler(ctx=gf, is_invariant=False, is_probe=False, flamegraph_enabled=False, potential_flamegraphs={}, submitted_futures=[])
+            gfut = Future()
+            gfut.set_result(gout)
+            with contextlib.redirect_stdout(io.StringIO()), contextlib.redirect_stderr(io.StringIO()):
+                gh._solve_end_to_end_callback(gfut, ex=None, path_ctx=gpc, description=None)
+            gkind = gout.result if isinstance(gout.result, str) else str(gout.result)
+            ctx.count(f"failedcall:{gkind}:{'valid' if gf.valid_counterexamples else 'invalid' if gf.invalid_counterexamples else 'none'}")
+            for m in gf.valid_counterexamples:
+                vals = {v.full_name[:3]: v.value for v in m.model.values()}
+                scn = evmdiff.Scenario(contracts={evmdiff.MAIN: code, HELPER: callee}, nargs=2, selector=b"", name=desc)
+                inp = evmdiff.Inputs(args=[vals.get("p_x", 0), vals.get("p_y", 0)], caller=0xCA11E4, origin=0x0419, value=0, balances={}, baldefault=0)
+                replay_jobs.append((scn, inp, f"{desc}: valid counterexample x={hex(vals.get('p_x', 0))} (helper thresholds {thr})"))
+            K.close_function_ctx(gf)
+        # sanity of the program: a concrete run must end normally
+        replay_jobs.append((evmdiff.Scenario(contracts={evmdiff.MAIN: code, HELPER: callee}, nargs=2, selector=b"", name=desc),
+                            evmdiff.Inputs(args=[1, 2], caller=0xCA11E4, origin=0x0419, value=0, balances={}, baldefault=0), "SANITY:" + desc))
 
     if replay_jobs:
         for (scn, inp, desc), res in zip(replay_jobs, evmdiff.run_concrete_batch(ctx, [(a, b) for a, b, _ in replay_jobs])):
